@@ -1093,6 +1093,10 @@ pub fn profiles(thorough: bool) -> Vec<OProf> {
         OProf { name: "delete-newest", u: 30, len: 250, del_policy: 5, ..base.clone() },
         OProf { name: "clear-and-reuse", u: 16, len: 220, w: [30, 8, 6, 8, 6, 6, 4, 4, 2, 6, 5, 5, 1, 1, 2, 4, 1], ..base.clone() },
         OProf { name: "handles-held-across-inserts", u: 60, len: 300, w: [40, 2, 1, 4, 4, 4, 2, 4, 0, 0, 2, 2, 0, 0, 4, 12, 0], ..base.clone() },
+        // regime changes instead of a stationary mix: fill beyond the hint, drain to (almost) nothing
+        // with one policy, take handles for everything left, probe, refill with a handle check after
+        // every insertion; twice or three times per history (sparse arenas after growth, see C17-h)
+        OProf { name: "phased", u: 320, len: 700, ..base.clone() },
         OProf { name: "medium", u: 400, len: 2500 * big, w: [34, 12, 8, 8, 6, 6, 4, 4, 1, 0, 6, 6, 0, 0, 1, 2, 0], ..base.clone() },
         OProf { name: "marathon", u: 96, len: 3_000_000 * big, w: [30, 12, 8, 8, 6, 6, 4, 4, 1, 0, 5, 5, 0, 0, 1, 2, 0], target_pop: 48, ..base.clone() },
         OProf { name: "large-bounded-population", u: 6000, len: 12000 * big, w: [40, 22, 14, 6, 4, 4, 2, 2, 0, 0, 3, 3, 0, 0, 0, 0, 0], target_pop: 700, ..base.clone() },
@@ -1102,7 +1106,118 @@ pub fn profiles(thorough: bool) -> Vec<OProf> {
 pub const HINTS: [usize; 6] = [0, 1, 8, 9, 300, 33];
 
 /// Keys are the even numbers 0,2,..,2u-2 (0 == K::default()); probes -1..=2u-1.
+/// fill / drain / hold / probe / refill phases (profile "phased")
+fn gen_phased(p: &OProf, is_set: bool, rng: &mut Rng) -> (usize, (i32, i32), Vec<OOp>) {
+    let hint = *rng.pick(&HINTS);
+    let u = p.u as usize;
+    let mut ops: Vec<OOp> = Vec::with_capacity(p.len + 64);
+    let mut present: Vec<i32> = Vec::new();
+    let mut is_in: Vec<bool> = vec![false; u];
+    let small = p.len < 120;
+    let sizes: &[usize] = if small { &[6, 9, 12, 17] } else { &[9, 17, 33, 40, 64, 130, 300] };
+    let pick_absent = |rng: &mut Rng, is_in: &Vec<bool>, order: u8| -> usize {
+        match order {
+            1 => (0..u).find(|&i| !is_in[i]).unwrap(),
+            2 => (0..u).rev().find(|&i| !is_in[i]).unwrap(),
+            _ => {
+                let mut c = rng.below(u as u64) as usize;
+                while is_in[c] {
+                    c = (c + 1) % u;
+                }
+                c
+            }
+        }
+    };
+    while ops.len() < p.len {
+        // fill
+        let n = (*rng.pick(sizes)).min(u - 1);
+        let order = rng.below(3) as u8;
+        while present.len() < n {
+            let i = pick_absent(rng, &is_in, order);
+            is_in[i] = true;
+            present.push(i as i32);
+            ops.push(OOp::Ins { k: 2 * i as i32 });
+            if rng.chance(1, 12) {
+                ops.push(OOp::Get { k: 2 * *rng.pick(&present) + rng.range(-1, 1) as i32 });
+            }
+        }
+        // drain
+        let target = *rng.pick(&[0usize, 1, 2, 3, n / 20, n / 8, n / 5, n / 3, n / 2]);
+        let policy = rng.below(5);
+        while present.len() > target {
+            let pos = match policy {
+                0 => 0,
+                1 => present.len() - 1,
+                2 => present.iter().enumerate().min_by_key(|e| *e.1).unwrap().0,
+                3 => present.iter().enumerate().max_by_key(|e| *e.1).unwrap().0,
+                _ => rng.below(present.len() as u64) as usize,
+            };
+            let i = present.remove(pos);
+            is_in[i as usize] = false;
+            ops.push(if rng.chance(1, 3) { OOp::DelH { k: 2 * i } } else { OOp::Del { k: 2 * i } });
+        }
+        if rng.chance(1, 6) {
+            ops.push(OOp::Clear);
+            present.clear();
+            for b in is_in.iter_mut() {
+                *b = false;
+            }
+            // a cleared collection: a few entries first, so that there is something to hold
+            for _ in 0..rng.range(0, 3) {
+                let i = pick_absent(rng, &is_in, 0);
+                is_in[i] = true;
+                present.push(i as i32);
+                ops.push(OOp::Ins { k: 2 * i as i32 });
+            }
+        }
+        // hold what is left, probe it
+        ops.push(OOp::Hold);
+        ops.push(OOp::Empty);
+        for _ in 0..rng.range(1, 5) {
+            let k = if present.is_empty() { rng.range(-1, 2 * u as i64 - 1) as i32 } else { 2 * *rng.pick(&present) + rng.range(-1, 1) as i32 };
+            ops.push(match rng.below(4) {
+                0 => OOp::Get { k },
+                1 => OOp::Fil { k },
+                2 => OOp::FilB { k, mode: rng.below(3) as u8 },
+                _ => OOp::Rdh { k },
+            });
+        }
+        if is_set && !present.is_empty() {
+            ops.push(OOp::WalkF);
+            ops.push(OOp::Aft { k: 2 * *present.iter().max().unwrap() });
+            ops.push(OOp::Bef { k: 2 * *present.iter().min().unwrap() });
+        }
+        ops.push(OOp::Chk);
+        // refill: the held handles must survive every single insertion
+        let k_more = (*rng.pick(&[1usize, 2, 5, n / 2 + 1, n + 3])).min(u - 1 - present.len());
+        let order = rng.below(3) as u8;
+        for j in 0..k_more {
+            let i = pick_absent(rng, &is_in, order);
+            is_in[i] = true;
+            present.push(i as i32);
+            ops.push(OOp::Ins { k: 2 * i as i32 });
+            if j < 8 || j % 7 == 0 {
+                ops.push(OOp::Chk);
+            }
+            if rng.chance(1, 10) {
+                ops.push(OOp::Get { k: 2 * *rng.pick(&present) });
+            }
+        }
+        ops.push(OOp::Chk);
+        ops.push(OOp::Sweep);
+        if is_set {
+            ops.push(OOp::WalkB);
+        }
+    }
+    ops.push(OOp::Sweep);
+    ops.push(OOp::Chk);
+    (hint, (-1, 2 * p.u - 1), ops)
+}
+
 pub fn gen_history(p: &OProf, is_set: bool, rng: &mut Rng) -> (usize, (i32, i32), Vec<OOp>) {
+    if p.name == "phased" {
+        return gen_phased(p, is_set, rng);
+    }
     let hint = *rng.pick(&HINTS);
     let mut ops: Vec<OOp> = Vec::with_capacity(p.len);
     let mut present: Vec<i32> = Vec::new(); // insertion order (key indices)
